@@ -71,9 +71,16 @@ def ops_equal(a, b):
 
 def realise_step(j):
     """abstract step number -> concrete path part"""
-    kinds = {1: 'a', 2: T.b, 3: T['c'], 4: 0, 5: T.d, 6: 'e.f', 7: T[1], 8: 'g', 9: T.h,
-             11: 'x', 12: T['y'], 13: 'z', 99: 'other'}
-    return kinds[j]
+    return KINDS[j]
+
+
+# (step 5 is an item step whose literal is None, step 13 a path part that is None: a step may carry any
+# literal, also the one the wildcard steps use as their placeholder argument)
+KINDS = {1: 'a', 2: T.b, 3: T['c'], 4: 0, 5: T[None], 6: 'e.f', 7: T[1], 8: 'g', 9: T.h,
+         11: 'x', 12: T['y'], 13: None, 99: 'other'}
+# what items() must list for each step, written down independently of the library
+EXPECT = {1: ('P', 'a'), 2: ('.', 'b'), 3: ('[', 'c'), 4: ('P', 0), 5: ('[', None), 6: ('P', 'e.f'), 7: ('[', 1),
+          8: ('P', 'g'), 9: ('.', 'h'), 11: ('P', 'x'), 12: ('[', 'y'), 13: ('P', None), 99: ('P', 'other')}
 
 
 def mk_path(steps):
@@ -81,7 +88,7 @@ def mk_path(steps):
 
 
 def items_of(steps):
-    return mk_path(steps).items()
+    return tuple(EXPECT[j] for j in steps)
 
 
 def nested_target(steps):
@@ -99,7 +106,7 @@ def nested_target(steps):
             else:
                 cur = {arg: cur} if not isinstance(arg, int) else [None] * arg + [cur]
         else:
-            cur = {part: cur} if isinstance(part, str) else [None] * part + [cur]
+            cur = {part: cur} if not isinstance(part, int) else [None] * part + [cur]
     return cur, leaf
 
 
@@ -149,8 +156,15 @@ def check_seq_(st):
             return 'len(p) = %d for %d steps' % (len(p), n)
         if p.items() != tuple(x for j in steps for x in items_of([j])):
             return 'items() differs from the tuple of steps'
-        if p.values() != tuple(v for _, v in p.items()):
+        if p.values() != tuple(v for _, v in items_of(steps)):
             return 'values() differs from the step arguments'
+        # wildcard steps are steps like any other (their argument is None)
+        wp = Path(p, T.__star__(), 'w', T.__starstar__())
+        tail = (('x', None), ('P', 'w'), ('X', None))
+        if len(wp) != n + 3 or wp.items() != items_of(steps) + tail or wp.values() != p.values() + (None, 'w', None):
+            return 'len / items() / values() of a path with wildcard steps differ from its tuple of steps: %r' % (wp,)
+        if not wp.startswith(p) or wp[n:].items() != tail or (n and wp[n - 1:n + 1].items() != items_of(steps[-1:]) + tail[:1]):
+            return 'startswith / slicing of a path with wildcard steps differ from its tuple of steps: %r' % (wp,)
         if not (p == mk_path(steps)) or (n and p == mk_path(steps[:-1])) or p != mk_path(steps):
             return 'equality of equal / different paths wrong'
         return None
